@@ -2684,7 +2684,7 @@ impl Compiler {
         let mut chunk = func_compiler.builder.finish();
         chunk.function_info = Some(FunctionInfo {
             name: None,
-            param_count: params.len(),
+            param_count: Self::expected_argument_count(params),
             is_generator: false,
             is_async,
             is_arrow: true,
